@@ -385,6 +385,9 @@ class SimSlurm:
         jid = argv[-1]
         b = self.batches.get(jid)
         w.emit("scancel", vp=vp, id=jid)
+        if alt in ("fail", "fail-all"):
+            # injected fault: the controller did not take the request; the batch keeps running
+            return 1, b"", b"scancel: error: Kill job error on job id %s: Socket timed out on send/recv operation\n" % jid.encode()
         if b is None or b.state == "GONE":
             return 1, b"", b"scancel: error: Kill job error on job id %s: Invalid job id specified\n" % jid.encode()
         if b.state in ("PENDING", "RUNNING"):
